@@ -513,7 +513,7 @@ func ruleC19Reg(p *Prog, a *Anchors, r *Report) {
 		}
 		nErr := 0
 		for _, ret := range returnsOf(f) {
-			if definitelyNonNil(ret.Results[len(ret.Results)-1], 0) {
+			if definitelyNonNil(res(ret, len(ret.Results)-1), 0) {
 				nErr++
 			}
 		}
